@@ -51,6 +51,17 @@ theorem C05_fresh_when_good {W : World} {P : Params} {sl : Slots} {w : List Bool
     cases hm : s.mon <;> simp [hm, MonPc.idle] at hidle <;> rfl
   exact (MonFacts_plain hp).1 h hs hv
 
+/-- A value that was REJECTED when it was reported (its stack did not verify then) is not forgotten: it is that
+source's latest value, and as soon as the stack of the latest values of all sources is good again - because another
+source changed - the view is the stack that contains it.  (Two watched files under a Verify that relates them, C17's
+`two` mode: the file whose final content was rejected converges once the other file makes the whole valid.) -/
+theorem C05_rejected_value_stays_in_the_stack {W : World} {P : Params} {sl : Slots} {w : List Bool} {s : State}
+    (hr : Reachable W P sl w s) (hidle : s.mon.idle = true) (hs : W.stackOk s.slots = true)
+    (hv : s.skipVerify = true ∨ W.valid s.slots = true) :
+    s.view.cfg = s.history.foldl (fun acc o => match o with | .gotUpd src v _ => setSlot acc src v | _ => acc) sl := by
+  rw [C05_fresh_when_good hr hidle hs hv]
+  exact C05_slots_latest hr
+
 /-- a config and serial read together belong together -/
 theorem C05_pair_atomic {W : World} {P : Params} {sl : Slots} {w : List Bool} {s : State}
     (hr : Reachable W P sl w s) (c : Nat) (v : Version) (h : Obs.seen c v ∈ s.log) : v ∈ s.versions sl :=
